@@ -343,6 +343,16 @@ func dig(v reflect.Value, w io.Writer, d int) {
 			io.WriteString(w, ",")
 		}
 		io.WriteString(w, "]")
+		if v.Kind() == reflect.Slice && v.Cap() > v.Len() && v.CanInterface() {
+			// the spare capacity belongs to the tree as well: an append onto a slice of the tree lands there
+			full := v.Slice3(0, v.Cap(), v.Cap())
+			io.WriteString(w, "+spare[")
+			for i := v.Len(); i < full.Len(); i++ {
+				dig(full.Index(i), w, d+1)
+				io.WriteString(w, ",")
+			}
+			io.WriteString(w, "]")
+		}
 	case reflect.String:
 		fmt.Fprintf(w, "%q", v.String())
 	case reflect.Int, reflect.Int8, reflect.Int16, reflect.Int32, reflect.Int64:
